@@ -12,6 +12,7 @@ FACETS = {
     "C05": "VRK",
     "C06": "TN",
     "C07": "CSEVRGK",
+    "C08": "VRFK",
     "C14": "VRSCK",
     "C15": "VRSCTNK",
     "C16": "VRSEK",
@@ -40,6 +41,8 @@ def clause_props(K, clause, cfg):
         out = set(K.tprops)
     elif clause.startswith("G."):
         out = {"C07"}
+    elif clause.startswith("F."):
+        out = set(K.fprops)
     if mode in GUARDED and clause[:2] in ("C.", "S.", "E.", "V.", "R.") and K.guard_relevant:
         out = out | {"C07"}
     return out
@@ -54,7 +57,9 @@ def select(prop):
         return []
     out = []
     for K in ct.REGISTRY.values():
-        ps = set(K.cprops) | set(K.sprops) | set(K.eprops) | set(K.vprops) | set(K.tprops) | {"C04"}
+        ps = set(K.cprops) | set(K.sprops) | set(K.eprops) | set(K.vprops) | set(K.tprops) | set(K.fprops)
+        if "C05" in K.vprops or "C14" in K.vprops:
+            ps.add("C04")
         if K.guard_relevant:
             ps.add("C07")
         if prop in ps:
